@@ -658,6 +658,26 @@ func rioDamage(c *Ctx, rc rioCase, tape *simrt.Tape, count bool) (vs []rioV, eva
 					// statement ("fail instead of returning data") is not contradicted; it is counted, not reported.
 					c.Count("probe:header-damage-reported-as-plain-eof", 1)
 				}
+				// the same file with the records up to and including the damaged one skipped instead of read: skipping
+				// may fail (it does, the header checksum is checked), but whatever is read afterwards must be the record
+				// that was written at that position - a damaged length must not make the reader resynchronise on a
+				// later record and hand it out as the next one
+				if after, skipErr, ok := skipThenRead(dmg, rc.ReadBuf, i+1); ok {
+					for j, b := range after {
+						p := i + 1 + j
+						if p >= len(live) || !sameRec(b, live[p]) {
+							want := "nothing (end of file)"
+							if p < len(live) {
+								want = recDesc(live[p].payload)
+							}
+							add("header-damage|skip-then-read-wrong-record", fmt.Sprintf("%s: after skipping records #0..#%d (skip error: %v) read number %d returned %s, written at that position: %s", where, i, skipErr, j, recDesc(b), want))
+							return
+						}
+					}
+					if skipErr == nil && count {
+						c.Count("probe:skip-over-damaged-header-succeeded", 1)
+					}
+				}
 				mm, err := recordio.NewMemoryMappedReaderWithPath(dmg)
 				if err == nil {
 					err = mm.Open()
@@ -714,6 +734,40 @@ func rioDamage(c *Ctx, rc rioCase, tape *simrt.Tape, count bool) (vs []rioV, eva
 		}
 	}
 	return
+}
+
+// skipThenRead skips the first n records of the file with SkipNext and reads the rest with ReadNext. It returns the
+// records read after the skips (none when a skip failed) and the first skip error; ok is false when the file cannot
+// be opened at all.
+func skipThenRead(path string, readBuf, n int) (after [][]byte, skipErr error, ok bool) {
+	defer func() {
+		if r := recover(); r != nil {
+			after, skipErr, ok = nil, fmt.Errorf("panic: %v", r), true
+		}
+	}()
+	rd, err := recordio.NewFileReader(recordio.ReaderPath(path), recordio.ReaderBufferSizeBytes(readBuf))
+	if err != nil {
+		return nil, nil, false
+	}
+	defer rd.Close()
+	if err := rd.Open(); err != nil {
+		return nil, nil, false
+	}
+	for k := 0; k < n; k++ {
+		if err := rd.SkipNext(); err != nil {
+			return nil, err, true
+		}
+	}
+	for {
+		b, err := rd.ReadNext()
+		if err != nil {
+			return after, nil, true
+		}
+		after = append(after, b)
+		if len(after) > 10000 {
+			return after, nil, true
+		}
+	}
 }
 
 func rioRun(c *Ctx, rc rioCase, tape *simrt.Tape, count bool) ([]rioV, int) {
